@@ -31,7 +31,7 @@ ASSUMPTIONS = [
 
 
 def bounds(tier):
-    return {'index_list_length': '1..3 over 4 cells', 'point_list_length': '1..4 over 4 symbols',
+    return {'index_list_length': '1..3 (thorough 1..4) over 4 cells', 'point_list_length': '1..4 over 4 symbols',
             'datasets': [repr(s) for s in datasets(tier)]}
 
 
@@ -64,7 +64,7 @@ def cases(tier):
     for spec in datasets(tier):
         _, truth = builders.build(spec)
         for kind in truth.get('data_kinds', truth.kinds):
-            for length in (1, 2, 3):
+            for length in ((1, 2, 3) if tier == 'quick' else (1, 2, 3, 4)):
                 for taken in (False, True):
                     if taken and length != 2:
                         continue
